@@ -7,7 +7,7 @@
    it the only way to abort was stream.remote_endpoint.abort(), which moved the acceptor to
    ABORTING / IDLE and left the initiator's Stream.state where it was):
 
-   initiator (Stream.*), each procedure first checks its own state and raises
+   initiator (methods of Stream), each procedure first checks its own state and raises
    InvalidStateError without sending anything ([Refused]); a reject from the peer surfaces
    as ProtocolError ([Rejected]) and leaves the local state unchanged:
      configure : IDLE only; Set_Configuration; -> CONFIGURED
